@@ -615,3 +615,5 @@ SELFTEST = [
                 "    let q = serde_urlencoded::from_str(raw_query_string).map_err(|e| {\n        HttpError::for_client_error(\n            None,\n            crate::ClientErrorStatusCode::BAD_REQUEST,\n            format!(\"unable to parse query string: {}\", e),\n        )\n    })?;\n    Ok(Query { inner: q })")],
      "why": "behaviour-preserving: match spelled as map_err + `?`, for_bad_request spelled as for_client_error(BAD_REQUEST)"},
 ]
+
+LEVEL_TEXT += ' Also (R6): typed bodies are decoded in one step from the raw bytes straight into the declared type (never through serde_json::Value, which merges duplicate keys); (R7 = C09.R2): each scalar is parsed as exactly its declared type, so out-of-range numbers are parse errors.'
